@@ -30,6 +30,11 @@ package main
 //        clientcall — ServantProxy.TarsInvoke with a registered client filter that logs and panics (the client-side guard);
 //                  all three exit modes range over the kind of the panic value (c20PanicKinds: runtime errors, string,
 //                  error values, int, struct, pointer, Stringer, panic(nil), slice, float), every kind at every place;
+//        lifecycle — entries are logged (slow writer), then the application's own tars.Run() ends the process: its one-time
+//                  initialisation panics (log path below a regular file, server / adapter / client / per-object TLS files
+//                  that cannot be loaded: before and after the logger set-up) and the panic unwinds through Run, or Run
+//                  returns (unparsable configuration then SIGTERM, a listener on an occupied port, complete
+//                  configuration then SIGTERM);
 //        runexit — entries are logged while tars.Run is running; SIGTERM; Run returns through its deferred FlushLogger;
 //        second  — flush, log again, flush again (FlushLogger is one-shot in the code: known finding).
 
@@ -41,6 +46,7 @@ import (
 	"errors"
 	"fmt"
 	"math/rand"
+	"net"
 	"os"
 	"os/exec"
 	"os/signal"
@@ -97,6 +103,10 @@ type c20Scenario struct {
 	Raw bool `json:"raw,omitempty"`
 	// exit-through-CheckPanic modes: what is panicked with (index into c20PanicKinds), and for mode invoke whether the
 	// panic happens in a registered pre server filter instead of the dispatcher's method
+	// mode lifecycle: how the application's own tars.Run() ends (index into c20LifeKinds)
+	Life     int  `json:"life,omitempty"`
+	// Callers >= 2: that many goroutines call FlushLogger concurrently (modes forced, stress, late, rawonly)
+	Callers  int  `json:"callers,omitempty"`
 	Kind     int  `json:"kind,omitempty"`
 	InFilter bool `json:"in_filter,omitempty"`
 }
@@ -299,7 +309,45 @@ func (d *c20Disp) Dispatch(ctx context.Context, imp interface{}, req *requestf.R
 	return nil
 }
 
-func c20ExitMode(m string) bool { return m == "panic" || m == "invoke" || m == "clientcall" }
+func c20ExitMode(m string) bool { return m == "panic" || m == "invoke" || m == "clientcall" || m == "lifecycle" }
+
+// the ways the application's own lifecycle ends the process: tars.Run() panics in its one-time initialisation at
+// different points (before / after the logger set-up), or returns (configuration unusable, a listener cannot be
+// opened, SIGTERM with a complete configuration)
+var c20LifeKinds = []string{"init-panic-logpath", "init-panic-server-tls", "init-panic-client-tls", "init-panic-adapter-tls",
+	"init-panic-client-obj-tls", "config-unparsable-then-sigterm", "listen-fails", "configured-then-sigterm"}
+
+// c20LifeConfig writes the server configuration of a lifecycle scenario; port is an occupied TCP port
+func c20LifeConfig(dir string, life int, port int) (string, error) {
+	blocker := filepath.Join(dir, "blocker")
+	if err := os.WriteFile(blocker, []byte("x"), 0o644); err != nil {
+		return "", err
+	}
+	logpath := filepath.Join(dir, "applog")
+	srvExtra, adapter, cliExtra := "", "", ""
+	switch life {
+	case 0:
+		logpath = filepath.Join(blocker, "sub") // below a regular file: MkdirAll fails, SetFileRoller panics
+	case 1:
+		srvExtra = "key=" + filepath.Join(dir, "nokey.pem") + "\ncert=" + filepath.Join(dir, "nocert.pem") + "\n"
+	case 2:
+		cliExtra = "ca=" + filepath.Join(dir, "noca.pem") + "\n"
+	case 3:
+		adapter = "<VerifApp.C20Server.TlsAdapter>\nendpoint=ssl -h 127.0.0.1 -p 1 -t 60000\nservant=VerifApp.C20Server.TlsObj\nprotocol=tars\nkey=" +
+			filepath.Join(dir, "nokey.pem") + "\ncert=" + filepath.Join(dir, "nocert.pem") + "\n</VerifApp.C20Server.TlsAdapter>\n"
+	case 4:
+		cliExtra = "<VerifApp.Other.Obj>\nca=" + filepath.Join(dir, "noca.pem") + "\n</VerifApp.Other.Obj>\n"
+	case 6:
+		adapter = fmt.Sprintf("<VerifApp.C20Server.ObjAdapter>\nendpoint=tcp -h 127.0.0.1 -p %d -t 60000\nservant=VerifApp.C20Server.Obj\nprotocol=tars\nmaxconns=100\nthreads=1\n</VerifApp.C20Server.ObjAdapter>\n", port)
+	}
+	cfg := "<tars>\n<application>\n<server>\napp=VerifApp\nserver=C20Server\nlocalip=127.0.0.1\nlogpath=" + logpath + "\ndatapath=" + dir + "\n" +
+		srvExtra + adapter + "</server>\n<client>\n" + cliExtra + "</client>\n</application>\n</tars>\n"
+	if life == 5 {
+		cfg = "<tars>\n<application>\n<server>\napp=VerifApp\nlogpath=a&b\n</application>\n" // not a document the parser accepts
+	}
+	path := filepath.Join(dir, "server.conf")
+	return path, os.WriteFile(path, []byte(cfg), 0o644)
+}
 
 // the kinds of panic value a guarded goroutine may die with: CheckPanic must dump, flush and exit for every one of them
 var c20PanicKinds = []string{"nil-map-write", "string", "errors.New", "int", "struct", "nil-deref", "stringer", "struct-pointer",
@@ -385,7 +433,7 @@ func c20RunScenario(sc c20Scenario) c20ChildOut {
 	if sc.JSON {
 		rogger.SetFormat(rogger.Json)
 	}
-	env := &c20Env{sc: &sc, recs: make([][]c20Rec, sc.G+1), next: make([]int, sc.G)}
+	env := &c20Env{sc: &sc, recs: make([][]c20Rec, sc.G+1+sc.Callers), next: make([]int, sc.G)}
 	if sc.Dir != "" {
 		f, err := os.OpenFile(filepath.Join(sc.Dir, "events.log"), os.O_WRONLY|os.O_CREATE|os.O_APPEND, 0o644)
 		if err != nil {
@@ -429,22 +477,55 @@ func c20RunScenario(sc c20Scenario) c20ChildOut {
 			}
 		}
 	}
-	flushK := func(base int) {
-		out.QLen = rogger.VerifQueueLen()
-		env.rec(flushSlot, base, 0, 0, 0)
+	var flushMu sync.Mutex
+	timerSeen := false
+	// one FlushLogger call of caller c (the caller id is the g field of the flush events)
+	flushAs := func(c, base int) {
+		ql := rogger.VerifQueueLen()
+		env.rec(flushSlot+c, base, c, 0, 0)
 		t0 := time.Now()
 		rogger.FlushLogger()
 		done := rogger.VerifFlushDone()
+		ms := float64(time.Since(t0)) / 1e6
+		flushMu.Lock()
 		if base == c20KFlushCall {
-			out.FlushMs = float64(time.Since(t0)) / 1e6
+			if c == 0 {
+				out.QLen = ql
+			}
+			// the duration reported is that of a call that returned on its timer if there is one (the shortest), else caller 0's
+			if !done && (!timerSeen || ms < out.FlushMs) {
+				out.FlushMs, timerSeen = ms, true
+			} else if done && !timerSeen && c == 0 {
+				out.FlushMs = ms
+			}
 		}
+		flushMu.Unlock()
 		if done {
-			env.rec(flushSlot, base+1, 0, 0, 0)
+			env.rec(flushSlot+c, base+1, c, 0, 0)
 		} else {
-			env.rec(flushSlot, base+2, 0, 0, 0)
+			env.rec(flushSlot+c, base+2, c, 0, 0)
 		}
 	}
-	flush := func() { flushK(c20KFlushCall) }
+	flushK := func(base int) { flushAs(0, base) }
+	// flush: one caller, or sc.Callers concurrent callers a few dozen microseconds apart
+	flush := func() {
+		if sc.Callers < 2 {
+			flushK(c20KFlushCall)
+			return
+		}
+		var fw sync.WaitGroup
+		for c := 0; c < sc.Callers; c++ {
+			fw.Add(1)
+			go func(c int) {
+				defer fw.Done()
+				if d := (sc.Seed >> uint(4*c)) % 8; d > 0 {
+					time.Sleep(time.Duration(d*25) * time.Microsecond)
+				}
+				flushAs(c, c20KFlushCall)
+			}(c)
+		}
+		fw.Wait()
+	}
 	var wg sync.WaitGroup
 	switch sc.Mode {
 	case "forced":
@@ -609,6 +690,45 @@ func c20RunScenario(sc c20Scenario) c20ChildOut {
 		p.Invoke(context.Background(), frame)
 		out.Hook = "Protocol.Invoke returned after the servant method panicked"
 		return out
+	case "lifecycle":
+		// the process ends through the application's own tars.Run(): a panic in its one-time initialisation unwinds through
+		// Run (its deferred FlushLogger), or Run returns; the child then exits at once
+		life := sc.Life % len(c20LifeKinds)
+		ln, lerr := net.Listen("tcp", "127.0.0.1:0") // an occupied port for the listener that must fail
+		if lerr != nil {
+			out.Hook = "listen: " + lerr.Error()
+			return out
+		}
+		cfgPath, cerr := c20LifeConfig(sc.Dir, life, ln.Addr().(*net.TCPAddr).Port)
+		if cerr != nil {
+			out.Hook = "config: " + cerr.Error()
+			return out
+		}
+		tars.ServerConfigPath = cfgPath
+		sig := make(chan os.Signal, 8)
+		signal.Notify(sig, syscall.SIGTERM) // SIGTERM never kills this process, also before Run has installed its handler
+		if life == 6 {
+			tars.GetServerConfig() // performs the initialisation here; Run's listener then fails on the occupied port
+			tars.AddServant(&c20Disp{run: func() {}}, nil, "VerifApp.C20Server.Obj")
+		}
+		for g := 0; g < sc.G; g++ {
+			wg.Add(1)
+			go logN(g, sc.N, true, &wg)
+		}
+		wg.Wait()
+		out.QLen = rogger.VerifQueueLen()
+		env.rec(flushSlot, c20KFlushCall, 0, 0, 0)
+		fmt.Fprintf(env.file, "P %d\n", time.Now().UnixNano())
+		if life == 5 || life == 7 {
+			go func() {
+				for {
+					time.Sleep(20 * time.Millisecond)
+					syscall.Kill(os.Getpid(), syscall.SIGTERM)
+				}
+			}()
+		}
+		tars.Run()
+		os.Exit(3) // Run returned: the process ends here
 	case "clientcall":
 		// the client-side guard: ServantProxy.TarsInvoke's `defer CheckPanic()`, panic in a registered client filter
 		tars.RegisterClientFilter(func(ctx context.Context, msg *tars.Message, invoke tars.Invoke, timeout time.Duration) error {
@@ -742,7 +862,7 @@ func c20Monitor(evs [][4]int, flushMs, timeoutMs float64, smallBacklog bool) []F
 	var retOrder []c20Key // returned entries in order of return
 	head := 0
 	flushCall, flushRet, flush2Call := -1, -1, -1
-	flushDone := false
+	flushDone, timerRet := false, false
 	for i, e := range evs {
 		k := c20Key{e[1], e[2]}
 		switch e[0] {
@@ -794,11 +914,17 @@ func c20Monitor(evs [][4]int, flushMs, timeoutMs float64, smallBacklog bool) []F
 				}
 				break // retOrder is ascending in ret: the first unwritten one is the oldest
 			}
-		case c20KFlushCall:
-			flushCall = i
-		case c20KFlushRetDone, c20KFlushRetTimer:
-			flushRet = i
-			flushDone = e[0] == c20KFlushRetDone
+		case c20KFlushCall: // the first call of any caller counts: what returned before it is owed by every acknowledged return
+			if flushCall < 0 {
+				flushCall = i
+			}
+		case c20KFlushRetDone:
+			if flushRet < 0 {
+				flushRet = i
+			}
+			flushDone = true
+		case c20KFlushRetTimer:
+			timerRet = true
 		case c20KFlush2Call:
 			flush2Call = i
 		case c20KFlush2RetDone:
@@ -836,7 +962,7 @@ func c20Monitor(evs [][4]int, flushMs, timeoutMs float64, smallBacklog bool) []F
 			add("C20/flush/entry-not-written", fmt.Sprintf("FlushLogger returned after the flusher's acknowledgement, but %d entr(ies) whose logging call had returned before FlushLogger was called were not handed to their writer by then (%d never, %d later); first: g=%d n=%d", lost+late, lost, late, first.g, first.n))
 		}
 	}
-	if flushRet >= 0 && !flushDone {
+	if timerRet {
 		if flushMs < timeoutMs-100 {
 			add("C20/flush/returned-early", fmt.Sprintf("FlushLogger returned after %.1f ms without the flusher's acknowledgement and before its time limit of %.0f ms", flushMs, timeoutMs))
 		} else if smallBacklog {
@@ -1004,7 +1130,16 @@ func c20Run(c *c20Case) []Failure {
 			fs = append(fs, Failure{Sig: "C20/write/not-one-whole-entry", Desc: m})
 			break
 		}
-		if c20ExitMode(sc.Mode) && cerr == "" && out.Hook == "" && out.Exit != 255 {
+		if sc.Mode == "lifecycle" && cerr == "" && out.Hook == "" {
+			want := 3 // tars.Run returned
+			if sc.Life%len(c20LifeKinds) <= 4 {
+				want = 2 // the initialisation panicked: the Go runtime ends the process after Run's deferred calls
+			}
+			if out.Exit != want {
+				fs = append(fs, Failure{Sig: "C20/lifecycle/unexpected-end", Desc: fmt.Sprintf("lifecycle scenario %s: the child ended with exit status %d, expected %d (2 = panic in the initialisation unwound through tars.Run, 3 = tars.Run returned)", c20LifeKinds[sc.Life%len(c20LifeKinds)], out.Exit, want)})
+			}
+		}
+		if c20ExitMode(sc.Mode) && sc.Mode != "lifecycle" && cerr == "" && out.Hook == "" && out.Exit != 255 {
 			fs = append(fs, Failure{Sig: "C20/panic-exit/exit-status", Desc: fmt.Sprintf("the process that panicked (value kind: %s; place: %s) under the framework's CheckPanic guard ended with exit status %d, not with CheckPanic's os.Exit(-1) (255): the panic was not handled by CheckPanic (no stack dump, no FlushLogger)", c20PanicKinds[sc.Kind%len(c20PanicKinds)], sc.Mode, out.Exit)})
 		}
 		for _, f := range c20Monitor(out.Events, out.FlushMs, out.TimeoutMs, c20SmallBacklog(sc)) {
@@ -1048,6 +1183,7 @@ func c20Gen(tier string, rng *rand.Rand) []c20Case {
 	var cs []c20Case
 	procs := []int{1, 2, 4, 16}
 	kindNo := map[string]int{}
+	lifeNo := 0
 	mk := func(mode string) c20Case {
 		sc := c20Scenario{Mode: mode, Seed: rng.Int63n(1 << 40), Procs: procs[rng.Intn(4)], W: 1 + rng.Intn(4), JSON: rng.Intn(4) == 0}
 		sc.Pad = []int{0, 8, 64, 600, 5000}[rng.Intn(5)]
@@ -1104,6 +1240,12 @@ func c20Gen(tier string, rng *rand.Rand) []c20Case {
 			sc.LastN = rng.Intn(6)
 			sc.Delay = []int{0, 0, 20}[rng.Intn(3)]
 			sc.W = 1 + rng.Intn(4)
+		case "lifecycle":
+			sc.G = 1 + rng.Intn(4)
+			sc.N = 5 + rng.Intn(20)
+			sc.Delay = []int{50, 50, 0}[rng.Intn(3)]
+			sc.Life = lifeNo % len(c20LifeKinds)
+			lifeNo++
 		case "clientcall":
 			sc.G = 1 + rng.Intn(4)
 			sc.N = 5 + rng.Intn(20)
@@ -1128,19 +1270,22 @@ func c20Gen(tier string, rng *rand.Rand) []c20Case {
 			sc.N = rng.Intn(10)
 			sc.LastN = 1 + rng.Intn(5)
 		}
+		if (mode == "forced" || mode == "stress" || mode == "late" || mode == "rawonly") && rng.Intn(4) == 0 {
+			sc.Callers = 2 + rng.Intn(3) // concurrent FlushLogger callers
+		}
 		if c20ExitMode(mode) { // every kind of panic value at every place, in turn
 			sc.Kind = kindNo[mode] % len(c20PanicKinds)
 			kindNo[mode]++
 		}
 		return c20Case{Sc: sc, Expect: true}
 	}
-	counts := map[string]int{"forced": 200, "stress": 120, "late": 40, "fullq": 4, "quiesce": 12, "panic": 32, "second": 4, "runexit": 8, "rawonly": 4, "swap": 16, "invoke": 16, "clientcall": 16}
+	counts := map[string]int{"forced": 200, "stress": 120, "late": 40, "fullq": 4, "quiesce": 12, "panic": 32, "second": 4, "runexit": 8, "rawonly": 4, "swap": 16, "invoke": 16, "clientcall": 16, "lifecycle": 16}
 	if tier == "thorough" {
-		counts = map[string]int{"forced": 3000, "stress": 2000, "late": 600, "fullq": 30, "quiesce": 150, "panic": 400, "second": 20, "runexit": 100, "rawonly": 40, "swap": 200, "invoke": 128, "clientcall": 64}
+		counts = map[string]int{"forced": 3000, "stress": 2000, "late": 600, "fullq": 30, "quiesce": 150, "panic": 400, "second": 20, "runexit": 100, "rawonly": 40, "swap": 200, "invoke": 128, "clientcall": 64, "lifecycle": 160}
 	}
 	// the smallest forced case first: one goroutine, one entry inside the window
 	cs = append(cs, c20Case{Sc: c20Scenario{Mode: "forced", G: 1, N: 0, Last: 1, LastN: 1, W: 1, Procs: 2, Seed: 1}, Expect: true})
-	for _, m := range []string{"forced", "stress", "late", "rawonly", "swap", "fullq", "quiesce", "panic", "invoke", "clientcall", "runexit", "second"} {
+	for _, m := range []string{"forced", "stress", "late", "rawonly", "swap", "fullq", "quiesce", "panic", "invoke", "clientcall", "lifecycle", "runexit", "second"} {
 		for i := 0; i < counts[m]; i++ {
 			cs = append(cs, mk(m))
 		}
@@ -1183,10 +1328,10 @@ func c20SelfTests(cs []c20Case, fails [][]Failure) {
 func c20DropWrite(evs [][4]int) [][4]int {
 	fc, fr := -1, -1
 	for i, e := range evs {
-		if e[0] == c20KFlushCall {
+		if e[0] == c20KFlushCall && fc < 0 {
 			fc = i
 		}
-		if e[0] == c20KFlushRetDone {
+		if e[0] == c20KFlushRetDone && fr < 0 {
 			fr = i
 		}
 	}
@@ -1304,7 +1449,12 @@ func init() {
 				if c.Sc.NoDump {
 					m += "-nodump"
 				}
-				if c20ExitMode(c.Sc.Mode) {
+				if c.Sc.Callers >= 2 {
+					m += fmt.Sprintf("-callers%d", c.Sc.Callers)
+				}
+				if c.Sc.Mode == "lifecycle" {
+					m += "-" + c20LifeKinds[c.Sc.Life%len(c20LifeKinds)]
+				} else if c20ExitMode(c.Sc.Mode) {
 					m += "-" + c20PanicKinds[c.Sc.Kind%len(c20PanicKinds)]
 					if c.Sc.InFilter {
 						m += "-filter"
